@@ -58,10 +58,9 @@ Lemma pmech_missing_list : pmech_missing =
   [PLast CRootIdx FSet; PLast CRootIdx FOp; PLast CMidIdx FSet; PLast CMidIdx FOp; PInner CChain; PInner CRootIdx; PInner CMidIdx;
    PSub SkWhole false RInStruct; PSub SkWhole false RInPlain; PSub SkWhole true RInPlain;
    PSub SkMember false RInStruct; PSub SkMember false RInPlain;
-   PSub SkMemberElem false RRoot; PSub SkMemberElem false REdge; PSub SkMemberElem false RInStruct;
-   PSub SkMemberElem false RInPlain; PSub SkMemberElem true RInPlain;
-   PSub SkRootElem false RRoot; PSub SkRootElem false RInStruct; PSub SkRootElem false RInPlain;
-   PSub SkRootElem true RRoot; PSub SkRootElem true RInStruct; PSub SkRootElem true RInPlain].
+   PSub SkMemberElem false RInStruct; PSub SkMemberElem false RInPlain; PSub SkMemberElem true RInPlain;
+   PSub SkRootElem false RInStruct; PSub SkRootElem false RInPlain;
+   PSub SkRootElem true RInStruct; PSub SkRootElem true RInPlain].
 Proof. vm_compute. reflexivity. Qed.
 
 (* every scalar store of the universe (8 graphs x const placements x every cell x =, op=, ++): refused under the
